@@ -19,6 +19,7 @@ RULE = ("latitudes: the full 0.0005-degree grid over [-90,90] (blocks of 500 poi
         "every block; both py_common.cprNL and the emulated working-tree c_common.cprNL. non-trivial = latitude within "
         "0.02 deg of a transition or |lat| >= 86.5 or |lat| < 1e-6"
         ' Also: whole-degree latitudes passed as Python ints, 140 000 / 1.3 million distinct latitudes in a row in one process (leg volume), the first cprNL calls of a freshly imported package made by four threads at once (leg first_use), latitudes as numpy.float16 / float32 / float64 scalars, Decimal and Fraction around every transition (leg single_precision).')
+HOSTILE_UNDERFLOW = True   # the hostile process state of this check also traps floating-point underflow (latitudes next to 0 included)
 ASSUMPTIONS = ["the Cython twin is observed through /verif/pyxemu (no Cython compiler on the image); calibrated against the pre-built binary in C15",
                "reference transition latitudes computed in float64 (error ~1e-14 deg) and checked against the 8-decimal DO-260B table"]
 
@@ -151,7 +152,7 @@ def s_lat(draw):
     elif kind == "hi":
         lat = draw(st.sampled_from([1, -1])) * draw(st.floats(86.5, 90))
     else:
-        lat = draw(st.floats(-1e-6, 1e-6))
+        lat = draw(st.one_of(st.floats(-1e-6, 1e-6), st.sampled_from([1e-160, -1e-160, 1e-200, 1e-300, -2.3e-308, 5e-324, -5e-324, 1e-155, 1e-20])))
     lat2 = draw(st.floats(-90, 90, allow_nan=False))
     return {"impl": draw(st.sampled_from(["py", "c"])), "lat": max(-90.0, min(90.0, lat)), "lat2": lat2}
 
@@ -191,12 +192,14 @@ def chk_single(case, note):
         f = impl(name)
         y = np.float32(t)
         for _ in range(abs(case["k0"])):
-            y = np.nextafter(y, np.float32(1000.0 if case["k0"] > 0 else -1000.0))
+            with np.errstate(all="ignore"):   # (the harness's own arithmetic next to 0 underflows by design)
+                y = np.nextafter(y, np.float32(1000.0 if case["k0"] > 0 else -1000.0))
         for k in range(25):
             if abs(float(y)) <= 90.0:
                 import decimal
                 import fractions
-                y16 = np.float16(y)
+                with np.errstate(all="ignore"):
+                    y16 = np.float16(y)
                 for what, arg in (("numpy.float32", y), ("numpy.float64", np.float64(y)), ("numpy.float16", y16),
                                   ("decimal.Decimal", decimal.Decimal(float(y))), ("fractions.Fraction", fractions.Fraction(float(y)))):
                     if what == "numpy.float16":
@@ -214,7 +217,8 @@ def chk_single(case, note):
                         y = np.float32(exact) if what == "numpy.float16" else y
                         return "[%s] cprNL(%s(%r)) -> %r; the latitude is exactly %r, DO-260B NL = %s, cprNL of the same value as a Python float = %r" % (
                             name, what, exact, r, exact, sorted(ok), call(f, exact))
-            y = np.nextafter(y, np.float32(1000.0))
+            with np.errstate(all="ignore"):
+                y = np.nextafter(y, np.float32(1000.0))
     note.evals = n
     note.cls("single-precision-neighbourhood")
     note.nt(True, key=[case["t"], case["sign"], case["k0"]])
